@@ -19,6 +19,7 @@ from vf import fits as FT
 from vf.gen import rng_for
 
 ID = "C02"
+TECHNIQUE = 'runtime monitoring: deep bit-exact state fingerprints (model JSON, data objects, caller frames) taken before/after every real fit/predict/constructor call over random call histories; history-vs-pristine-copy differential; aliasing probes on handed-out frames'
 LEVEL = "exploration"
 CASE_TIMEOUT = 3000
 RULE = ("one fitted model per case (all families/profiles) x a random history of predicts over reporting sets of span {1 day, week, month, partial year, "
